@@ -57,14 +57,6 @@ theorem comp_seq (isBytes dot as : Bool) (p q : Pat) (hp : p.negFree = true) :
     cases k <;> first | rfl | (simp [Pat.negFree] at hp)
   | _ => rfl
 
-/-- the strict grammar gives `/` no meaning in a file-name pattern -/
-def Pat.noSlash : Pat → Bool
-  | .lit c => c != '/'
-  | .seq a b => a.noSlash && b.noSlash
-  | .alt a b => a.noSlash && b.noSlash
-  | .ext _ p => p.noSlash
-  | _ => true
-
 /-! ### (i) tokens that do not stand at the start -/
 
 theorem comp_false_sem (isBytes dot ci : Bool) (g : Pat) (hn : g.negFree = true) (hs : g.noSlash = true) :
@@ -116,15 +108,6 @@ theorem comp_false_sem (isBytes dot ci : Bool) (g : Pat) (hn : g.negFree = true)
       simp only [comp, quantRe, Re.M, Pat.L, this]
 
 /-! ### (ii) tokens at the start of the name -/
-
-/-- no repeated group (`*(…)`, `+(…)`) stands at a start position (defect D1) -/
-def Pat.startSafe : Pat → Bool
-  | .seq p q => p.startSafe && (if p.isEmpty then q.startSafe else true)
-  | .alt p q => p.startSafe && q.startSafe
-  | .ext .star _ => false
-  | .ext .plus _ => false
-  | .ext _ p => p.startSafe
-  | _ => true
 
 /-- the conditions C01 puts on the name: non-empty, and no leading dot unless DOTMATCH -/
 def StartOK (dot : Bool) (a : St) : Prop :=
